@@ -1,6 +1,11 @@
 package adt
 
-// Experiments with the real evaluator on scalar conjuncts.
+// C03 / A03.3 and C01 / A01.2 on the REAL evaluator: conjuncts drawn from
+// atoms, basic types and bounds are unified by Vertex.Finalize (scheduler,
+// insertValueConjunct, updateNodeType, SimplifyBounds, validateValue ...);
+// an arbitrary probe atom unifies with them exactly when it satisfies every
+// conjunct (then the result is that atom), in every order of the conjuncts,
+// with duplicated conjuncts and with an extra top.
 
 func verifUnify(ctx *OpContext, cs ...Value) *Vertex {
 	v := &Vertex{}
@@ -11,13 +16,152 @@ func verifUnify(ctx *OpContext, cs ...Value) *Vertex {
 	return v
 }
 
-func verifHarnessUnifyProbe() {
+type verifConj struct {
+	val Value
+	// oracle data
+	kind  int // 0 atom, 1 basic type, 2 bound
+	atom  verifAtom
+	types Kind
+	op    Op
+}
+
+var verifBasicKinds = []Kind{NullKind, BoolKind, IntKind, FloatKind, NumberKind, StringKind, BytesKind, TopKind}
+
+// domain: 0 numbers, 1 strings/bytes, 2 everything (small)
+func verifDomainAtom(tag string, domain, digits, maxExp, strLen int) verifAtom {
+	switch domain {
+	case 0:
+		n := verifNum(tag, digits, maxExp)
+		return verifAtom{kind: n.K, val: n, num: n}
+	case 1:
+		s := verifStringUpTo(strLen)
+		if verifChoice(2) == 0 {
+			return verifAtom{kind: StringKind, val: &String{Str: s}, str: s}
+		}
+		return verifAtom{kind: BytesKind, val: &Bytes{B: []byte(s)}, str: s}
+	}
+	return verifAnyAtom(tag, digits, maxExp, strLen)
+}
+
+func verifAnyConj(tag string, domain, digits, maxExp, strLen int) verifConj {
+	switch verifChoice(3) {
+	case 0:
+		a := verifDomainAtom(tag, domain, digits, maxExp, strLen)
+		return verifConj{val: a.val, kind: 0, atom: a}
+	case 1:
+		var k Kind
+		switch domain {
+		case 0:
+			k = []Kind{IntKind, FloatKind, NumberKind, TopKind}[verifChoice(4)]
+		case 1:
+			k = []Kind{StringKind, BytesKind, StringKind | BytesKind, TopKind}[verifChoice(4)]
+		default:
+			k = verifBasicKinds[verifChoice(len(verifBasicKinds))]
+		}
+		if k == TopKind {
+			return verifConj{val: &Top{}, kind: 1, types: TopKind}
+		}
+		return verifConj{val: &BasicType{K: k}, kind: 1, types: k}
+	}
+	b := verifDomainAtom(tag, domain, digits, maxExp, strLen)
+	op := verifNumOps[verifChoice(len(verifNumOps))]
+	if b.kind == NullKind || b.kind == BoolKind {
+		verifAssume(op == NotEqualOp || op == EqualOp)
+	}
+	return verifConj{val: &BoundValue{Op: op, Value: b.val}, kind: 2, atom: b, op: op}
+}
+
+func verifSameAtom(a, b verifAtom, scale int) bool {
+	if a.kind != b.kind {
+		return false
+	}
+	switch a.kind {
+	case NullKind:
+		return true
+	case BoolKind:
+		return a.b == b.b
+	case IntKind, FloatKind:
+		return verifNumEq(a.num, b.num, scale)
+	}
+	return a.str == b.str
+}
+
+func verifSatConj(c verifConj, p verifAtom, scale int) bool {
+	switch c.kind {
+	case 0:
+		return verifSameAtom(c.atom, p, scale)
+	case 1:
+		return c.types&p.kind != 0
+	}
+	return verifSatBound(c.op, c.atom, p, scale)
+}
+
+// the result of a successful unification with an atom is that atom
+func verifResultIsAtom(v *Vertex, p verifAtom, scale int) bool {
+	switch r := v.BaseValue.(type) {
+	case *Null:
+		return p.kind == NullKind
+	case *Bool:
+		return p.kind == BoolKind && r.B == p.b
+	case *Num:
+		return (p.kind == IntKind || p.kind == FloatKind) && r.K == p.kind && verifNumEq(r, p.num, scale)
+	case *String:
+		return p.kind == StringKind && r.Str == p.str
+	case *Bytes:
+		return p.kind == BytesKind && string(r.B) == p.str
+	}
+	return false
+}
+
+func verifIsErr(v *Vertex) bool {
+	_, ok := v.BaseValue.(*Bottom)
+	return ok
+}
+
+func verifHarnessUnifyExact() {
+	domain := verifParam("DOMAIN", 0)
+	digits := verifParam("DIGITS", 2)
+	maxExp := verifParam("EXP", 1)
+	strLen := verifParam("STRLEN", 1)
+	n := verifParam("NCONJ", 2)
 	ctx := verifNewCtx()
-	a := &Num{K: IntKind, X: verifDec("a", 3, 0)}
-	lo := &BoundValue{Op: GreaterEqualOp, Value: &Num{K: IntKind, X: verifDec("lo", 3, 0)}}
-	v := verifUnify(ctx, a, lo, &BasicType{K: IntKind})
-	verifReach("finalized")
-	_, isErr := v.BaseValue.(*Bottom)
-	want := verifSatNumBound(GreaterEqualOp, lo.Value.(*Num), a, 0)
-	verifAssert(isErr == !want, "probe-unify-matches-oracle")
+	cs := make([]verifConj, n)
+	vals := make([]Value, n)
+	for i := range cs {
+		cs[i] = verifAnyConj("c", domain, digits, maxExp, strLen)
+		vals[i] = cs[i].val
+	}
+	p := verifDomainAtom("p", domain, digits+1, maxExp, strLen+1)
+	want := true
+	for _, c := range cs {
+		want = verifAnd(want, verifSatConj(c, p, maxExp))
+	}
+	// conjuncts first, then the atom
+	v := verifUnify(ctx, append(append([]Value{}, vals...), p.val)...)
+	verifReach("unified")
+	verifAssert(verifIsErr(v) == !want, "A03.3-atom-unifies-iff-it-satisfies-every-conjunct")
+	if !verifIsErr(v) {
+		verifAssert(verifResultIsAtom(v, p, maxExp), "A03.3-result-is-that-atom")
+	}
+	// A01.2: every rotation / reversal of the conjuncts, the atom first, a duplicate, an extra top
+	rev := []Value{p.val}
+	for i := n - 1; i >= 0; i-- {
+		rev = append(rev, vals[i])
+	}
+	v2 := verifUnify(verifNewCtx(), rev...)
+	verifAssert(verifIsErr(v2) == verifIsErr(v), "A01.2-reversed-order-same-outcome")
+	if !verifIsErr(v2) {
+		verifAssert(verifResultIsAtom(v2, p, maxExp), "A01.2-reversed-order-same-value")
+	}
+	mid := append(append([]Value{vals[0], p.val}, vals[1:]...), vals[0], &Top{})
+	v3 := verifUnify(verifNewCtx(), mid...)
+	verifAssert(verifIsErr(v3) == verifIsErr(v), "A01.2-interleaved-duplicated-top-same-outcome")
+	// without the atom: bottom only if no atom satisfies the conjuncts
+	v4 := verifUnify(verifNewCtx(), vals...)
+	if verifIsErr(v4) {
+		verifAssert(!want, "A03.3-bottom-only-if-unsatisfiable")
+	} else if _, isNum := v4.BaseValue.(*Num); isNum && want {
+		// the evaluator pinned a single number: never a different one
+		verifAssert(verifResultIsAtom(v4, p, maxExp), "A03.3-pinned-atom-is-the-only-one")
+	}
 }
